@@ -81,6 +81,7 @@ class Shim(object):
         self.root = cfg['root']                      # sandbox root (real path)
         self.mounts = set(cfg.get('mounts', [self.root]))
         self.uid = cfg.get('uid')
+        self.pwall = cfg.get('pwall') or []
         self.seed = cfg.get('seed', 0)
         self.permute = cfg.get('permute', False)
         self.trace_on = cfg.get('trace', False)
@@ -377,6 +378,10 @@ class Shim(object):
         if s.uid is not None:
             os.getuid = lambda: s.uid
             os.geteuid = lambda: s.uid
+        # the password database (--all-users): never the real one, whose home directories lie outside the sandbox
+        import pwd
+        pwall = [pwd.struct_passwd((n, 'x', u, u, '', d, '/bin/sh')) for n, u, d in s.pwall]
+        pwd.getpwall = lambda: list(pwall)
 
         def p1(name, op=None):
             fn = _o[name]
